@@ -23,6 +23,12 @@ def run(module, harness, params, inputs):
     except Exception as e:
         return {'error': 'native exception: ' + ''.join(
             traceback.format_exception(type(e), e, e.__traceback__)[-5:])}
+    finally:
+        for c in reversed(x.cleanups):
+            try:
+                c()
+            except Exception:
+                pass
     return {'outs': [[n, api.normal(v)] for n, v in x.outs],
             'checks': [[n, bool(v), i] for n, v, i in x.checks],
             'tags': x.tags}
